@@ -320,6 +320,15 @@ func c14Run(c *Ctx, i int, r *gen.R) {
 		}
 		if r.Chance(1, 6) {
 			f := faulty[r.Intn(len(faulty))]
+			if r.Chance(1, 4) {
+				// the destination leaves Write by panicking (an aborted HTTP handler, a buffer that refuses to grow) and
+				// the application recovers: the wrapper and the table are as usable afterwards as before
+				pw := &panickingWriter{k: r.Range(1, 6)}
+				cs.Renders = append(cs.Renders, fmt.Sprintf("%s: RenderTo a writer that panics in call %d (recovered by the caller)", f.name, pw.k))
+				Guard(func() { f.to(pw) })
+				c.Rec.Count("renders_into_a_panicking_writer_through_a_reused_wrapper", 1)
+				continue
+			}
 			w := &scriptWriter{k: r.Range(1, 12), mode: r.Intn(c15NModes)}
 			cs.Renders = append(cs.Renders, fmt.Sprintf("%s: RenderTo a writer failing at call %d (%s)", f.name, w.k, c15ModeNames[w.mode]))
 			f.to(w)
@@ -418,6 +427,17 @@ func c14Long(c *Ctx, i int, r *gen.R) {
 		}
 	}
 	c.Rec.Eval(gen.Hash64("long", fmt.Sprint(i, rounds)), true)
+}
+
+// panickingWriter accepts k-1 writes and panics in the k-th.
+type panickingWriter struct{ k, calls int }
+
+func (w *panickingWriter) Write(p []byte) (int, error) {
+	w.calls++
+	if w.calls >= w.k {
+		panic("the destination aborted the write (as net/http's ErrAbortHandler does)")
+	}
+	return len(p), nil
 }
 
 func formatClass(f string) string {
